@@ -273,6 +273,35 @@ theorem c14_writer_failure (p : Pipe) (c : Call) (line : Bytes) (hch : p.chan = 
     (pipelineLog p c).1.writeErrors = p.writeErrors + (if c.writeOk then 0 else 1) := by
   simp [pipelineLog, hf, hch]
 
+/-- **Level names round-trip**: every level has a name, `aws_string_to_log_level` maps that name — in the table's
+spelling, in lower case, in any ASCII case mix — back to exactly that level (so the seven names are pairwise distinct
+ignoring case), and whatever it accepts is a level below AWS_LL_COUNT whose name equals the text ignoring case. -/
+theorem c14_level_names :
+    (∀ l, l < AWS_LL_COUNT → ∃ name, levelToString l = some name ∧ stringToLevel name = some l ∧
+        stringToLevel (name.map asciiLower) = some l) ∧
+    (∀ s a, a.map asciiLower = s.map asciiLower → stringToLevel a = stringToLevel s) ∧
+    (∀ s l, stringToLevel s = some l → l < AWS_LL_COUNT ∧ ∃ name, levelToString l = some name ∧ eqIgnoreCase s name = true) ∧
+    (∀ l, ¬ l < AWS_LL_COUNT → levelToString l = none) := by
+  refine ⟨by decide, ?_, ?_, ?_⟩
+  · intro s a h
+    have : eqIgnoreCase a = eqIgnoreCase s := by funext b; simp only [eqIgnoreCase, h]
+    simp only [stringToLevel, this]
+  · intro s l h
+    simp only [stringToLevel] at h
+    split at h
+    · next hlt =>
+      cases h
+      have hlen : levelStrings.length = AWS_LL_COUNT := by decide
+      refine ⟨by rw [← hlen]; exact hlt, levelStrings[List.findIdx (eqIgnoreCase s) levelStrings], ?_, ?_⟩
+      · simp [levelToString, List.getElem?_eq_getElem hlt]
+      · exact List.findIdx_getElem (w := hlt)
+    · cases h
+  · intro l hl
+    simp only [levelToString]
+    apply List.getElem?_eq_none
+    have hlen : levelStrings.length = AWS_LL_COUNT := by decide
+    omega
+
 /-- **Subject lookup** (`s_get_log_subject_info_by_id`, its integer skeleton regenerated from logging.c): for every
 slot table and every subject id the lookup never reads at or behind the end of a registered list, and it returns an
 entry exactly when the id lies below the subject space, its slot is registered and its index in the slot is below that
